@@ -264,6 +264,14 @@ def _struct_job(job):
                "domain": env["domain"], "forest": env["forest"]}
         o = dblob.KeyIdentifier.unpack(gkdi.pack_key_identifier(kid))
         return repr(o), bytes(o.pack())
+    if what == "ecdh":
+        curve = ("P256", "P384", "P521")[k % 3]
+        n = {"P256": 32, "P384": 48, "P521": 66}[curve]
+        x, y = r.getrandbits(8 * n - 8), r.getrandbits(8 * n - 8)
+        key = dg.ECDHKey(curve_name=curve, key_length=n, x=x, y=y)
+        raw = bytes(key.pack())
+        back = dg.ECDHKey.unpack(raw)
+        return raw, repr(back), bytes(back.pack()), repr(back.curve_and_hash[1].name)
     if what == "params":
         kp = dg.KDFParameters.unpack(gkdi.pack_kdf_params(offline.HASHES[k % 4]))
         fp = dg.FFCDHParameters.unpack(gkdi.pack_dh_params(8 + k % 3, (1 << (8 * (8 + k % 3) - 1)) | (2 * k + 1), 2 + k % 7))
@@ -311,6 +319,33 @@ def run_name_damage(case) -> dict:
     return {"viol": viol, "digest": tr.world.digest(), "key": common.key_hash(case), "fired": {"parties": 2}, "probes": {"damaged_name_then_valid": 1}, "vtime_ns": 0}
 
 
+def run_kid_history(case) -> dict:
+    """{"kind": "kid-history", ...}: key identifiers whose domain / forest names differ only in case, Unicode normalisation form or a
+    trailing dot are decoded one after the other in one process; each must decode to its own spelling and re-encode to its own bytes."""
+    import random
+    import unicodedata
+    import uuid
+
+    import dpapi_ng._blob as dblob
+
+    r = random.Random(case["seed"])
+    base = r.choice(["domain.test", "b\u00fccher.example", "corp.example", "x" * 20 + ".test"])
+    variants = [base, base.upper(), base.title(), unicodedata.normalize("NFD", base), base + ".", base.swapcase()]
+    r.shuffle(variants)
+    viol = None
+    for k, name in enumerate(variants[: case["n"]]):
+        kid = {"version": 1, "flags": k % 2, "l0": 361, "l1": k, "l2": 31 - k, "root_key_id": uuid.UUID(int=case["seed"]), "key_info": bytes(range(32)),
+               "domain": name, "forest": variants[(k + 1) % len(variants)]}
+        raw = gkdi.pack_key_identifier(kid)
+        o = dblob.KeyIdentifier.unpack(raw)
+        if (o.domain_name, o.forest_name) != (kid["domain"], kid["forest"]) or bytes(o.pack()) != raw:
+            viol = common.violation("C11", "key-identifier", "history", "other-spelling-returned", "", "",
+                                    f"key identifier #{k + 1} of the process names {kid['domain']!r} / {kid['forest']!r} but decodes to {o.domain_name!r} / {o.forest_name!r} "
+                                    f"(earlier ones: {variants[:k]})")
+            break
+    return {"viol": viol, "digest": str(case["seed"]), "key": common.key_hash(case), "fired": {"parties": 1}, "probes": {"key_identifier_histories": 1}, "vtime_ns": 0}
+
+
 def run_threads(case) -> dict:
     """{"kind": "threads", ...}: 2..4 caller threads encode / decode MS-GKDI structures at the same time."""
     import random
@@ -318,8 +353,9 @@ def run_threads(case) -> dict:
     from checks import threadpure
 
     r = random.Random(case["seed"])
-    jobs = [[(r.choice(("getkey", "getkey", "env", "resp", "kid", "params")), r.randrange(5000)) for _ in range(r.randint(3, 9))] for _ in range(case["n"])]
-    out = threadpure.run("C11", "structures", case, jobs, _struct_job, case["seed"], case["policy"])
+    kinds = ("ecdh", "ecdh", "ecdh", "kid") if case.get("first_use") else ("getkey", "getkey", "env", "resp", "kid", "params", "ecdh")
+    jobs = [[(r.choice(kinds), r.randrange(5000)) for _ in range(r.randint(3, 9))] for _ in range(case["n"])]
+    out = threadpure.run("C11", "structures", case, jobs, _struct_job, case["seed"], case["policy"], baseline_after=bool(case.get("first_use")))
     out["probes"] = dict(out.get("probes") or {}, thread_structure_cases=1)
     return out
 
@@ -335,21 +371,27 @@ class C11(common.Check):
             "RefDC; library decode of the reply and of nested KDF / FFC-DH parameters / DH / ECDH keys == independent decode and re-encodes "
             "identically; key identifiers in emitted blobs; 2..4 caller threads of one process encode / decode the structures at the same time "
             "(pre-empted at PRNG-chosen line events inside dpapi_ng) and every result must equal the one computed alone; a reply whose name bytes are damaged (odd length, half a surrogate pair) followed "
-            "by well-formed replies in the same process. Non-trivial = every plan; distinct = distinct plan.")
+            "by well-formed replies in the same process; key identifiers whose names differ only in case / normalisation form decoded one after "
+            "the other. Non-trivial = every plan; distinct = distinct plan.")
     components = {"client": "real (GetKey.pack, GetKey.unpack_response, GroupKeyEnvelope.unpack, KeyIdentifier.pack, parameter/key structures)",
                   "LibDC": "real codecs in the server role (GetKey.unpack, VerificationTrailer.unpack, GroupKeyEnvelope.pack)",
                   "RefDC": "model (ref.rpce NDR64, ref.gkdi structures)", "transport / clock / entropy": "simulated"}
     assumptions = ["structure values that no party can send in this protocol (e.g. an envelope with L1 = 2^32-1) are outside the technique and not claimed",
                    "NDR referent ids are free and compared through the decoder"]
     required_fired = tuple("sd_len_mod8_%d" % i for i in (0, 4)) + ("root_key_ptr_null", "root_key_ptr_set", "reply_seed", "reply_public") + \
-        tuple("env_len_mod8_%d" % i for i in range(8)) + ("envelope_boundary_values", "p521_public_key_decoded", "nil_guid_root_key_id", "thread_structure_cases", "thread_overlap", "damaged_name_then_valid")
+        tuple("env_len_mod8_%d" % i for i in range(8)) + ("envelope_boundary_values", "p521_public_key_decoded", "nil_guid_root_key_id", "thread_structure_cases", "thread_overlap", "damaged_name_then_valid", "key_identifier_histories")
 
     def cases(self, tier, seed):
         rng = prng.stream(seed, "C11")
         n = 1500 if tier == "quick" else 60000
         from checks import threadpure
 
-        out = [gen_plan(rng, i, tier) for i in range(n)]
+        # (first: thread cases that only use the ECDH key structure - the first use of it in each worker process and in the replay)
+        rngf = prng.stream(seed, "C11", "first-use")
+        out = [{"kind": "threads", "first_use": True, "seed": rngf.getrandbits(30), "n": 2 + k % 3, "policy": {"mode": "marks", "q": (0.3, 0.5, 0.8)[k % 3], "p": (0.0, 0.05)[(k // 3) % 2]}} for k in range(32)]
+        out += [gen_plan(rng, i, tier) for i in range(n)]
+        for k in range(60 if tier == "quick" else 2000):
+            out.append({"kind": "kid-history", "seed": rng.getrandbits(30), "n": 3 + k % 4})
         for k in range(96 if tier == "quick" else 4000):
             out.append({"kind": "name-damage", "seed": rng.getrandbits(30), "which": k, "fl": [("sync", "async")[k % 2], ("sync", "async")[(k // 2) % 2]]})
         for k in range(300 if tier == "quick" else 20000):
@@ -361,6 +403,8 @@ class C11(common.Check):
             return run_threads(case)
         if case.get("kind") == "name-damage":
             return run_name_damage(case)
+        if case.get("kind") == "kid-history":
+            return run_kid_history(case)
         tr_ref = P.execute_plan(case)
         tr_lib = P.execute_plan(dict(case, dc=dict(case["dc"], lib_codecs=True)))
         viol, probes = judge(case, tr_ref, tr_lib)
@@ -368,7 +412,7 @@ class C11(common.Check):
                 "probes": probes, "vtime_ns": tr_ref.world.stats.get("vtime_ns", 0)}
 
     def shrink(self, case):
-        if case.get("kind") == "name-damage":
+        if case.get("kind") in ("name-damage", "kid-history"):
             return
         if case.get("kind") == "threads":
             pol = case["policy"]
@@ -393,7 +437,7 @@ class C11(common.Check):
                 yield dict(case, dc=dict(case["dc"], **{k: "d.test"}))
 
     def sample_repr(self, case, res):
-        if case.get("kind") in ("threads", "name-damage"):
+        if case.get("kind") in ("threads", "name-damage", "kid-history"):
             return case
         rk = case["root_keys"][0]
         return {"root_key": rk[:3], "domain": case["dc"]["domain"], "forest": case["dc"]["forest"],
